@@ -16,8 +16,15 @@ from concurrent.futures import ThreadPoolExecutor
 
 VERIF = os.path.dirname(os.path.dirname(os.path.abspath(__file__)))
 SPEC = os.path.join(VERIF, "spec")
-HARNESS = os.path.join(VERIF, "harness")
+# The registered checks always judge /repo. VERIF_REPO=<worktree> (a developer convenience, used to
+# try seeded changes in scratch worktrees without touching /repo) builds a private copy of the
+# harness against that tree; evidence and replays then go to work/alt/ instead of /verif/evidence.
+REPO = os.path.realpath(os.environ.get("VERIF_REPO", "/repo"))
+ALT = REPO != "/repo"
+HARNESS_SRC = os.path.join(VERIF, "harness")
+HARNESS = HARNESS_SRC if not ALT else os.path.join("/tmp", "cvh-" + hashlib.sha1(REPO.encode()).hexdigest()[:10])
 HBIN = os.path.join(HARNESS, "target", "debug", "cvharness")
+OUTDIR = VERIF if not ALT else os.path.join(VERIF, "work", "alt", os.path.basename(REPO))
 NCPU = min(16, os.cpu_count() or 4)
 
 
@@ -31,8 +38,17 @@ class ToolError(Exception):
 def build_harness():
     """Rebuild the harness against /repo's current working tree (hooks enabled)."""
     t0 = time.time()
+    if ALT:
+        os.makedirs(os.path.join(HARNESS, ".cargo"), exist_ok=True)
+        if os.path.isdir(os.path.join(HARNESS, "src")):
+            shutil.rmtree(os.path.join(HARNESS, "src"))
+        shutil.copytree(os.path.join(HARNESS_SRC, "src"), os.path.join(HARNESS, "src"))
+        shutil.copyfile(os.path.join(HARNESS_SRC, ".cargo", "config.toml"), os.path.join(HARNESS, ".cargo", "config.toml"))
+        toml = open(os.path.join(HARNESS_SRC, "Cargo.toml")).read().replace('path = "/repo"', 'path = "%s"' % REPO)
+        with open(os.path.join(HARNESS, "Cargo.toml"), "w") as f:
+            f.write(toml)
     try:
-        shutil.copyfile("/repo/Cargo.lock", os.path.join(HARNESS, "Cargo.lock"))
+        shutil.copyfile(os.path.join(REPO, "Cargo.lock"), os.path.join(HARNESS, "Cargo.lock"))
     except OSError:
         pass
     p = subprocess.run(["cargo", "build", "--offline"], cwd=HARNESS, stdout=subprocess.PIPE,
@@ -80,8 +96,72 @@ def rand_content(rng, maxlen=12):
     return bytes(rng.choice([1, 2, 3, 120]) for _ in range(n))
 
 
+# Contents beyond toy scale: prefixes (and near-prefixes) of a few shared base strings, 40-260
+# bytes, so that files are duplicates / prefixes / extensions of one another at sizes where code
+# may switch strategy (thresholds written into the program rather than taken from the options).
+BASES = [bytes((i * 7 + j * 13) % 251 + 1 for i in range(260)) for j in range(3)]
+
+
+def prefix_content(rng, bases=None):
+    b = rng.choice(bases or BASES)
+    n = rng.choice([40, 64, 65, 70, 96, 100, 128, 129, 150, 200, 260])
+    c = b[:n]
+    if rng.random() < 0.15:
+        c = c[:-1] + bytes([(c[-1] % 250) + 2])
+    return c
+
+
+def prefix_family_tree(rng, nfiles=None, dirs=("",)):
+    """A tree of files whose contents are prefixes of a few shared strings (see BASES)."""
+    t = [node("/", "Dir")]
+    for d in dirs:
+        if d:
+            t.append(node("/" + d, "Dir"))
+    k = nfiles or rng.randrange(4, 15)
+    # often all from one or two bases, so that several files are prefixes of the same longer ones
+    bases = rng.sample(BASES, rng.choice([1, 1, 2, 3]))
+    used = set()
+    for i in range(k):
+        d = rng.choice(dirs)
+        nm = rng.choice(["a", "b", "c", "d", "e", "f", "g", "h", "r", "s", "t", "w"]) + str(rng.randrange(0, 4))
+        p = ("/" + d if d else "") + "/" + nm
+        if p in used:
+            continue
+        used.add(p)
+        t.append(node(p, "File", prefix_content(rng, bases), mt=(1600000000 + i, rng.choice([0, 5]))))
+    return t
+
+
+# Sibling directories whose names extend one another with a byte that sorts below '/': byte-wise
+# comparison of whole path strings and the documented component-wise order disagree on them.
+SIB_SUFFIXES = [".d", "-x", " y", ".b", "+", ","]
+
+
+def add_prefix_siblings(rng, nodes, p=0.3, content=None):
+    """For some directories of a tree add a sibling directory named <name><suffix> holding a file,
+    and make sure the directory itself holds one too (so both have entries at the same depth)."""
+    used = {path_str(n["p"]) for n in nodes}
+    out = list(nodes)
+    for n in list(nodes):
+        if n["k"] != "Dir" or not n["p"] or rng.random() >= p:
+            continue
+        base = path_str(n["p"])
+        sib = base + rng.choice(SIB_SUFFIXES)
+        if sib in used:
+            continue
+        used.add(sib)
+        out.append(node(sib, "Dir"))
+        for parent in (base, sib):
+            ch = parent + "/" + rng.choice(["m", "x", "10-l", "zz"])
+            if ch not in used:
+                used.add(ch)
+                out.append(node(ch, "File", content if content is not None else rand_content(rng, 6),
+                                mt=(1600000200 + len(out), 0)))
+    return out
+
+
 def random_tree(rng, nmax=8, depth=3, names=NAMES, mtimes=MTIMES, modes="simple", owners=False,
-                symlinks=True, maxlen=12, pre_epoch=True):
+                symlinks=True, maxlen=12, pre_epoch=True, sibs=0.0):
     """A random source tree: list of nodes, root first. Every directory is listed."""
     if not pre_epoch:
         mtimes = [m for m in mtimes if m[0] > 0]
@@ -121,6 +201,8 @@ def random_tree(rng, nmax=8, depth=3, names=NAMES, mtimes=MTIMES, modes="simple"
         else:
             nodes.append(node(path, "Symlink", target=rng.choice(["a", "../x", "/nonexistent/t", "d", "é"]),
                               mt=rng.choice(mtimes), u=u, g=g))
+    if sibs:
+        nodes = add_prefix_siblings(rng, nodes, p=sibs)
     return nodes
 
 
@@ -139,7 +221,7 @@ def mutate_tree(rng, tree, names=NAMES, mtimes=MTIMES, maxlen=12, nmut=None):
         files = [n for n in t if n["k"] == "File"]
         dirs = [n for n in t if n["k"] == "Dir"]
         nonroot = [n for n in t if n["p"]]
-        op = rng.choice(["add", "add", "modify", "modify", "remove", "rename", "chmod", "touch", "swap", "retarget"])
+        op = rng.choice(["add", "add", "modify", "modify", "remove", "rename", "chmod", "touch", "swap", "retarget", "edge"])
 
         def below(n):
             pre = n["p"]
@@ -196,6 +278,22 @@ def mutate_tree(rng, tree, names=NAMES, mtimes=MTIMES, maxlen=12, nmut=None):
                 v.update({"k": "File", "c": list(rand_content(rng, maxlen)), "mode": 0o644, "mt": fresh_mtime(v["mt"])})
             else:
                 v.update({"k": "File", "t": [], "c": list(rand_content(rng, maxlen)), "mode": 0o644, "mt": fresh_mtime(v["mt"])})
+        elif op == "edge" and dirs:
+            # add an entry sorting after (or before) every other child of a directory, or remove the
+            # last / first child: the position where a lock-step merge compares across directories
+            d = rng.choice(dirs)
+            kids = sorted((m for m in t if len(m["p"]) == len(d["p"]) + 1 and m["p"][:len(d["p"])] == d["p"]),
+                          key=lambda m: bytes(m["p"][-1]))
+            how = rng.choice(["add-last", "add-first", "del-last", "del-first"])
+            if how.startswith("add"):
+                nm = "zzz" if how == "add-last" else "!0"
+                p = d["p"] + [list(nm.encode())]
+                if path_str(p) not in idx:
+                    t.append(node(path_str(p), "File", rand_content(rng, maxlen), mt=rng.choice(mt_pool)))
+            elif kids:
+                v = kids[-1] if how == "del-last" else kids[0]
+                gone = below(v)
+                t = [m for m in t if m not in gone]
         elif op == "retarget":
             links = [n for n in t if n["k"] == "Symlink"]
             if links:
@@ -566,7 +664,7 @@ def judge(prop, result, scen_by_id, tier, seed, replay_dir=None):
 
 
 def write_replay(prop, scen_obj, items, tier, seed, replay_dir=None):
-    d = replay_dir or os.path.join(VERIF, "replays", prop)
+    d = replay_dir or os.path.join(OUTDIR, "replays", prop)
     os.makedirs(d, exist_ok=True)
     body = {"property": prop, "tier": tier, "seed": seed, "scenario": scen_obj,
             "broken": [{"monitor": m, "event": l, "detail": dt} for m, l, dt in items]}
@@ -578,10 +676,10 @@ def write_replay(prop, scen_obj, items, tier, seed, replay_dir=None):
 
 
 def write_evidence(prop, tier, seed, level, coverage, wall, violations, assumptions):
-    os.makedirs(os.path.join(VERIF, "evidence"), exist_ok=True)
+    os.makedirs(os.path.join(OUTDIR, "evidence"), exist_ok=True)
     ev = {"property_id": prop, "tier": tier, "seed": seed, "level": level, "coverage": coverage,
           "assumptions": assumptions, "wall_s": round(wall, 2), "violations": violations}
-    with open(os.path.join(VERIF, "evidence", f"{prop}.json"), "w") as f:
+    with open(os.path.join(OUTDIR, "evidence", f"{prop}.json"), "w") as f:
         json.dump(ev, f, indent=1)
 
 
